@@ -315,6 +315,42 @@ theorem C13_any_refusal_unchanged (op : Op) : ∀ (t : Ty) (s : Slice) (o : OpOu
           rw [h1, List.take_append_drop, List.take_append_drop]
         | err e => rw [hin] at h; simp at h
         | fault f => rw [hin] at h; simp at h
+    case uenum tag vs =>
+      cases ht : tag.readU s with
+      | ok tg =>
+        rw [ht, Res.bind_ok] at h
+        split at h
+        · cases h; rfl
+        · rename_i lt _
+          split at h
+          · cases h; rfl
+          · split at h
+            · cases h
+            · split at h
+              · cases h
+              · rename_i _ hle
+                generalize hn : floorMul (s.len - ceilMul tag.size (max tag.align (alignLL (dictLL vs)))) (max tag.align (alignLL (dictLL vs))) = n at *
+                generalize hd : ceilMul tag.size (max tag.align (alignLL (dictLL vs))) = dOff at *
+                generalize hp : lastPos ((dictLL vs).getD tg []) 0 = lpos at *
+                cases hin : applyOp op lt ⟨s.addr + dOff + lpos, ((s.bytes.drop dOff).take n).drop lpos⟩ with
+                | ok o' =>
+                  rw [hin, Res.bind_ok] at h
+                  cases h
+                  have := ih lt _ o' hin hr
+                  simp only at this ⊢
+                  rw [this]
+                  have hle' : lpos ≤ n := by omega
+                  -- take (dOff+lpos) ++ drop lpos (take n (drop dOff)) ++ drop (dOff+n) = bytes
+                  have e1 : ((s.bytes.drop dOff).take n).drop lpos = ((s.bytes.drop (dOff + lpos)).take (n - lpos)) := by
+                    rw [List.drop_take, List.drop_drop]
+                  rw [e1]
+                  have e2 : s.bytes.drop (dOff + n) = (s.bytes.drop (dOff + lpos)).drop (n - lpos) := by
+                    rw [List.drop_drop]; congr 1; omega
+                  rw [e2, List.append_assoc, List.take_append_drop, List.take_append_drop]
+                | err e => rw [hin] at h; simp at h
+                | fault f => rw [hin] at h; simp at h
+      | err e => rw [ht] at h; simp at h
+      | fault f => rw [ht] at h; simp at h
     case vec et l => exact vec_dispatch _ _ _ _ _ h hr
     case str l => exact vec_dispatch _ _ _ _ _ h hr
   | assign i =>
